@@ -25,6 +25,9 @@ class BreakSignal(Exception): pass
 class ContinueSignal(Exception): pass
 
 
+OOB_LOG = []      # (array name, extent, flat index, 'read'|'write', ast node) for accesses outside a declared C array
+
+
 class Arr:
     """array / pointer: a store map from concrete index (int or tuple) to value; reads of unset slots call default."""
 
@@ -57,8 +60,14 @@ class Arr:
             return idx
         return idx + self.offset
 
+    def _bounds(self, k, kind, node=None):
+        ext = self.base.extent
+        if ext is not None and isinstance(k, int) and not (0 <= k < ext):
+            OOB_LOG.append((self.base.name, ext, k, kind, node))
+
     def get(self, idx):
         k = self._key(idx)
+        self._bounds(k, 'read')
         self.reads.append(k)
         if k in self.store:
             return self.store[k]
@@ -69,6 +78,7 @@ class Arr:
 
     def set(self, idx, v, node=None):
         k = self._key(idx)
+        self._bounds(k, 'write', node)
         self.store[k] = v
         self.writes.append((k, v, node))
 
